@@ -1,7 +1,7 @@
 (* C03 — rule kinds determine what objects a model contains.
    Model: Model/Kinds.v (transcription of _determine_rule_types, _textx_isinstance and the
    abstract / match / common branch of process_node in the repaired tree). *)
-From TxV Require Import Core.Base Model.Kinds Proofs.KindsProofs.
+From TxV Require Import Core.Base Model.Kinds Proofs.KindsProofs Proofs.KindsInhProofs.
 
 (* ---- rule kinds.  The multi-pass fixpoint terminates (the model's fuel - |rules|+1 passes,
    |rules|+1 nested calls per pass - is never exhausted) and gives every rule the documented
@@ -37,7 +37,7 @@ Print Assumptions C03_kinds_example.
    _tx_inh_by lists, and a positive answer implies that k is R or is reachable from R through
    references of abstract rules to non-match rules (no false positives).
    Missing for the full statement: completeness of _tx_inh_by - refuted below on the pinned
-   code (known finding inh-by-incomplete). *)
+   code (known finding inh-by-incomplete); proved under wf_inh in C03_isinstance_complete. *)
 Theorem C03_isinstance_iff_partial : forall g : list rule,
   exists s, determine_types g = Some s /\
     forall k, isinstance (length g) (inh s) k None = Some true /\
@@ -84,6 +84,53 @@ Proof.
 Qed.
 Print Assumptions C03_isinstance_complete_refuted.
 
+(* The completeness half holds for every grammar outside the finding's class: wf_inh = no cycle
+   through abstract rules (a rank decreases along references between abstract rules) and no
+   sequence of an abstract rule with a skippable element that holds a non-match reference in front
+   of another element holding one.  Then every rule that R can yield (first non-match
+   references, transitively) passes textx_isinstance(_, R).  The classifier of the known finding
+   inh-by-incomplete is the negation of wf_inh. *)
+Theorem C03_isinstance_complete : forall (g : list rule) (rank : nat -> nat) (s : st),
+  determine_types g = Some s -> wf_inh g (types s) rank ->
+  forall r k, yields g (types s) r k -> isinstance (length g) (inh s) k (Some r) = Some true.
+Proof. exact isinstance_complete. Qed.
+Print Assumptions C03_isinstance_complete.
+
+(* ... and the full statement when moreover every non-match reference of an abstract rule is a
+   first one (tight: e.g. alternatives with at most one non-match reference) *)
+Theorem C03_isinstance_iff : forall (g : list rule) (rank : nat -> nat) (s : st),
+  determine_types g = Some s -> wf_inh g (types s) rank -> tight g (types s) ->
+  forall r k, isinstance (length g) (inh s) k (Some r) = Some true <-> yields g (types s) r k.
+Proof. exact isinstance_iff. Qed.
+Print Assumptions C03_isinstance_iff.
+
+(* non-vacuity: T: 'k' M A | C;  A: B? 'j' | C;  B, C common, M match - wf_inh and tight hold,
+   T yields B through A *)
+Example C03_isinstance_iff_example :
+  let g := [ {| r_attrs := false; r_body := Body (Choice [Seq [Term; Ref 4; Ref 1]; Ref 3]) |};
+             {| r_attrs := false; r_body := Body (Choice [Seq [Opt (Ref 2); Term]; Ref 3]) |};
+             {| r_attrs := true; r_body := Body Term |};
+             {| r_attrs := true; r_body := Body Term |};
+             {| r_attrs := false; r_body := Body Term |} ] in
+  exists s, determine_types g = Some s /\ wf_inh g (types s) (fun x => match x with 0 => 1 | _ => 0 end) /\
+            tight g (types s) /\ yields g (types s) 0 2 /\ isinstance 5 (inh s) 2 (Some 0) = Some true.
+Proof.
+  eexists. split; [vm_compute; reflexivity|].
+  split; [|split; [|split]].
+  - split.
+    + intros x y Hx Hy Ky. destruct x as [|[|[|[|[|x]]]]]; try discriminate Hx.
+      * destruct Hy as [<-|[<-|[<-|[]]]]; try discriminate Ky. simpl. lia.
+      * destruct Hy as [<-|[<-|[]]]; discriminate Ky.
+    + intros x e Hx Hb. destruct x as [|[|[|[|[|x]]]]]; try discriminate Hx; inversion Hb; reflexivity.
+  - intros x c Hx Hc Hn. destruct x as [|[|[|[|[|x]]]]]; try discriminate Hx.
+    + destruct Hc as [<-|[<-|[<-|[]]]]; [exfalso; apply Hn; reflexivity | simpl; auto | simpl; auto].
+    + destruct Hc as [<-|[<-|[]]]; simpl; auto.
+  - apply yields_step with (y := 1); [reflexivity | simpl; auto|].
+    apply yields_step with (y := 2); [reflexivity | simpl; auto | apply yields_refl].
+  - reflexivity.
+Qed.
+Print Assumptions C03_isinstance_iff_example.
+
 (* ---- objects.  Whatever the parse tree and the kinds, every object that process_node creates
    is an instance of a rule whose kind is common (an abstract rule's class is never
    instantiated, a match rule never gives an object). *)
@@ -92,17 +139,23 @@ Theorem C03_only_common_instances : forall (K : nat -> kind) (t : tree),
 Proof. exact only_common_instances. Qed.
 Print Assumptions C03_only_common_instances.
 
+(* ... and every object is created for a NonTerminal node of that rule in the parse tree: nothing
+   is instantiated that the parse did not produce *)
+Theorem C03_objects_from_nodes : forall (K : nat -> kind) (t : tree) (c : nat),
+  In c (objs (process K t)) -> K c = KCommon /\ In c (node_rules t).
+Proof. exact objs_from_nodes. Qed.
+Print Assumptions C03_objects_from_nodes.
+
 Theorem C03_match_plain : forall K r kids, K r = KMatch -> exists s, process K (TN r kids) = VStr s.
 Proof. intros K r kids H. eexists. apply process_match. exact H. Qed.
 Print Assumptions C03_match_plain.
 
 (* ---- result of an abstract node: the first node of an abstract / common rule, whatever
    terminals and match-rule nodes precede it and whatever follows *)
-Theorem C03_abstract_result : forall K r pre k post,
-  K r = KAbstract ->
-  (forall p, In p pre -> nonmatch_node K p = false) -> nonmatch_node K k = true ->
-  process K (TN r (pre ++ k :: post)) = process K k.
-Proof. exact abstract_first_nonmatch. Qed.
+Theorem C03_abstract_result : forall K r pre r' ks post,
+  K r = KAbstract -> (forall p, In p pre -> plain_node K p) -> K r' <> KMatch ->
+  process K (TN r (pre ++ TN r' ks :: post)) = process K (TN r' ks).
+Proof. exact abstract_first_nonmatch_kinds. Qed.
 Print Assumptions C03_abstract_result.
 
 Example C03_abstract_result_example :
